@@ -10,6 +10,13 @@ THEOREMS = ["EngineModel.Properties.C03." + t for t in [
     "C03_v2_track_roundtrip", "C03_v2_beat_roundtrip", "C03_v2_ovw_roundtrip",
     "C03_v2_cues_roundtrip", "C03_v2_cues_reject", "C03_v2_loops_roundtrip", "C03_v2_loops_reject",
     "C03_v2_track_total", "C03_v2_beat_total", "C03_v2_ovw_total",
+    "C03_v1_track_readback", "C03_v1_track_roundtrip_partial", "C03_v1_track_roundtrip_counterexample",
+    "C03_v1_track_total", "C03_v1_beat_readback", "C03_v1_beat_roundtrip_partial",
+    "C03_v1_beat_roundtrip_counterexample", "C03_v1_beat_reject", "C03_v1_cues_readback",
+    "C03_v1_cues_roundtrip", "C03_v1_cues_reject", "C03_v1_loops_readback",
+    "C03_v1_loops_roundtrip", "C03_v1_loops_reject", "C03_absent_only_reserved",
+    "C03_v1_ovw_readback", "C03_v1_ovw_roundtrip", "C03_v1_hires_roundtrip",
+    "C03_compress_complete", "C03_compress_avail_in_condition_counterexample",
 ]]
 ASSUMPTIONS = [
     "payload level: the zlib framing is covered by C02/C05 (the tie compares uncompressed payloads, which the harness "
@@ -23,7 +30,11 @@ MANIFEST = dict(
          "double bit patterns, all integers, labels of 0..255 arbitrary bytes, any number of entries, any extra_data; no "
          "size bound) the Model decoder returns exactly the value from the Model encoder's bytes; every representable "
          "value outside the encodable domain makes the encoder throw (never other bytes, never undefined behaviour); for "
-         "schema 1.x the only present cue/loop that reads back absent has offset exactly -1.0. The Model is tied to the "
+         "schema 1.x the only present cue/loop that reads back absent has offset exactly -1.0 and the read-back value is "
+         "stated exactly (zero optional fields read back absent: known finding with _partial/_counterexample); the "
+         "zlib_compress loops, modelled over an abstract deflate oracle with an explicit call contract, provably collect "
+         "all output of all calls, consume the whole payload and stop only after Z_FINISH answered Z_STREAM_END (recorded "
+         "deflate() calls of the real library are replayed through that Model every run). The Model is tied to the "
          "working tree on every run: generated values are encoded and decoded by the real library (sanitizer build) and "
          "by the Model, payloads and results compared byte for byte, and a direct oracle states decode(encode v) = v on "
          "the library's own answers.",
@@ -55,6 +66,62 @@ def run_both(lines, watchdog=20):
     return hout, mout
 
 
+def compress_trace_stream(rng, tier, henc, hist, divergences, violations):
+    """zlib_compress on payloads of every interesting size class (empty-ish, small, exactly / around one and two
+    16 KiB chunks, compressible and incompressible up to ~100 KB): the link-time wrapper records every deflate()
+    call; (oracle) an independent inflate must recover the payload, the blob length must be 4 + all produced
+    bytes and the last call must be a Z_FINISH call answering Z_STREAM_END; (model) the Model of the loops,
+    run against the recorded answers, must make exactly the recorded calls."""
+    def noise(n):
+        return bytes(rng.getrandbits(8) for _ in range(n))
+    pays = []
+    for n in [1, 2, 8, 100, 16383, 16384, 16385, 32767, 32768, 32769, 20000, 40000] + \
+            ([100000, 70000, 49152, 49153] if tier == "thorough" else [50000]):
+        pays.append(noise(n))
+        pays.append(bytes(n))
+        pays.append((b"abcdefgh" * (n // 8 + 1))[:n])
+    # payloads the library itself produced
+    for h in henc:
+        t = h.split()
+        if len(t) >= 3 and t[0] == "ok" and t[1] not in ("UNFRAMED", "-") and len(t[1]) > 30000 and len(pays) < 60:
+            pays.append(bytes.fromhex(t[1]))
+    lines = ["ztrace " + cd.hexb(p) for p in pays]
+    hz = [o for (outs, _) in runner.run_harness(runner.shard(lines, NCPU), stateless=True, watchdog=20) for o in outs]
+    rep = []
+    for p, h in zip(pays, hz):
+        t = h.split()
+        rep.append("zreplay %d %s" % (len(p), " ".join(t[4:])) if len(t) >= 4 and t[0] == "ok" else "#skip")
+    mz = [o for outs in runner.run_model(runner.shard(rep, NCPU)) for o in outs]
+    for p, l, h, r, m in zip(pays, lines, hz, rep, mz):
+        t = h.split()
+        cls = "other"
+        if len(t) >= 4 and t[0] == "ok":
+            calls = [tuple(int(x) for x in c.split(":")) for c in t[4:]]
+            blen = int(t[2].split("=")[1])
+            why = None
+            if t[1] != "framed":
+                why = "zlib_compress wrote a blob from which an independent inflate does not recover the payload"
+            elif blen != 4 + sum(c[3] for c in calls):
+                why = "blob length is not 4 + all bytes deflate() produced"
+            elif not calls or calls[-1][0] != 4 or calls[-1][4] != 1:
+                why = "the last deflate() call was not a Z_FINISH call answering Z_STREAM_END"
+            elif sum(c[2] for c in calls) != len(p):
+                why = "deflate() did not consume the whole payload"
+            cls = "calls=%d" % min(len(calls), 6)
+            if why:
+                violations.append({"tag": "oracle", "signature": None, "header": {"kind": "input", "what": why},
+                                   "body": [l[:300000], "impl: " + h[:400]]})
+            want = "ok len=%d calls=%d%s" % (blen, len(calls), "".join(" " + c for c in t[4:]))
+            if m != want:
+                divergences.append({"input": r[:400], "impl": want[:300], "model": m[:300]})
+        elif not h.startswith("throw"):
+            violations.append({"tag": "oracle", "signature": None,
+                               "header": {"kind": "input", "what": "zlib_compress crashed: " + h},
+                               "body": [l[:300000], "impl: " + h[:300]]})
+        hist["ztrace:" + cls] = hist.get("ztrace:" + cls, 0) + 1
+    return len(lines) + len(rep)
+
+
 def tie(ctx):
     rng = random.Random(ctx.seed * 15485863 + 3)
     hist = {}
@@ -63,6 +130,8 @@ def tie(ctx):
     henc, menc = run_both(enc_lines)
     divergences, violations = [], []
     dec_lines, dec_idx = [], []
+    decz_lines, decz_idx = [], []
+    unframed = set()
     for i, (k, v) in enumerate(vals):
         h, m = henc[i], menc[i]
         ht = h.split()
@@ -73,12 +142,24 @@ def tie(ctx):
         if ht and ht[0] == "ok" and len(ht) >= 2 and ht[1] != "UNFRAMED":
             dec_lines.append("dec %s %s" % (k, ht[1]))
             dec_idx.append(i)
+        if ht and ht[0] == "ok" and len(ht) >= 2 and ht[1] == "UNFRAMED":
+            unframed.add(i)
+        # the library's own blob, framing included, through the library's own from_blob / decode
+        if ht and ht[0] == "ok" and len(ht) >= 3 and k not in cd.RAW_KINDS:
+            decz_lines.append("decz %s %s" % (k, ht[2]))
+            decz_idx.append(i)
     hdec, mdec = run_both(dec_lines) if dec_lines else ([], [])
     decoded = {}
     for j, i in enumerate(dec_idx):
         decoded[i] = hdec[j]
         if hdec[j] != mdec[j]:
             divergences.append({"input": dec_lines[j][:400], "impl": hdec[j][:200], "model": mdec[j][:200]})
+    hdz, mdz = run_both(decz_lines) if decz_lines else ([], [])
+    decodedz = {}
+    for j, i in enumerate(decz_idx):
+        decodedz[i] = hdz[j]
+        if hdz[j] != mdz[j]:
+            divergences.append({"input": decz_lines[j][:400], "impl": hdz[j][:200], "model": mdz[j][:200]})
     # ---- direct oracle on the implementation's own answers
     distinct = set()
     cls = {"roundtrip_ok": 0, "rejected": 0, "absent_by_neg1": 0}
@@ -90,7 +171,13 @@ def tie(ctx):
         if h.startswith("ok"):
             want = "ok " + cd.expected_readback(k, v)
             got = decoded.get(i, "(payload not recoverable: %s)" % h[:40])
-            if got != want:
+            gotz = decodedz.get(i, got)
+            if i in unframed:
+                why = ("the blob the library wrote is not a complete zlib stream of its payload "
+                       "(its own encoding cannot be decoded)")
+            elif got == want and gotz != want:
+                why = "the library cannot decode its own stored blob (framing included) to the value written: " + gotz[:80]
+            elif got != want:
                 if cd.zero_optional(k, v):
                     sig = KNOWN_ZERO_SIG
                     why = "1.x optional field holding zero read back absent"
@@ -114,10 +201,14 @@ def tie(ctx):
         if why:
             violations.append({"tag": "oracle", "signature": sig,
                                "header": {"kind": "input", "what": why},
-                               "body": [enc_lines[i], "impl: " + h[:300]] +
-                                       (["dec %s %s" % (k, h.split()[1]), "impl: " + decoded.get(i, "-")[:300],
+                               "body": [enc_lines[i][:200000], "impl: " + h[:300]] +
+                                       (["decz %s %s" % (k, h.split()[2]) if i in unframed or decodedz.get(i) != decoded.get(i)
+                                         else "dec %s %s" % (k, h.split()[1]),
+                                         "impl: " + decodedz.get(i, decoded.get(i, "-"))[:300],
                                          "want: ok " + cd.expected_readback(k, v)[:300]]
-                                        if h.startswith("ok") and len(h.split()) > 1 else [])})
+                                        if h.startswith("ok") and len(h.split()) > 2 else [])})
+    # ---- the compression loops: recorded deflate() calls of the real library replayed through the Model
+    zt = compress_trace_stream(rng, ctx.tier, henc, hist, divergences, violations)
     # one KNOWN-FINDING line is enough: keep at most one violation per known signature
     seen_sig, vout = set(), []
     for v in violations:
@@ -131,7 +222,7 @@ def tie(ctx):
     unknown = [v for v in vout if v["signature"] is None]
     return {
         "ok": not divergences and not unknown,
-        "evaluations": len(enc_lines) + len(dec_lines),
+        "evaluations": len(enc_lines) + len(dec_lines) + len(decz_lines) + zt,
         "distinct_nontrivial": len(distinct),
         "rule": "seeded values of all 11 kinds (every double class incl. -0/inf/NaN payloads/subnormals/-1.0, int64/int32 "
                 "edges, labels of every length 0..300 with arbitrary bytes, 0..12 entries, grids, waveforms, extra_data); "
